@@ -313,3 +313,7 @@ mod tests {
         }
     }
 }
+
+#[cfg(kani)]
+#[path = "/verif/harness/foyer-storage/tombstone.rs"]
+mod verif_kani;
